@@ -121,7 +121,7 @@ def generate(ctx):
             names = rng.sample(NAMES[:9], k)
             fs = [(n, str(rng.choice(alias_types))) for n in names]
             s = "nested<" + ", ".join(f"{n}: [{t}]" for n, t in fs) + ">"
-            m = rng.choice(["valid", "truncate", "drop_char", "upper", "swap_sep", "extra", "no_bracket", "empty_type", "dup_name", "double_sep", "garbage"])
+            m = rng.choice(["valid", "truncate", "drop_char", "upper", "swap_sep", "extra", "no_bracket", "empty_type", "dup_name", "double_sep", "garbage", "tail", "tail"])
             if m == "truncate":
                 s = s[: rng.randint(0, len(s) - 1)]
             elif m == "drop_char":
@@ -133,6 +133,9 @@ def generate(ctx):
                 s = s.replace(", ", ",", 1) if rng.random() < 0.5 else s.replace(": ", ":", 1)
             elif m == "extra":
                 s = rng.choice([" " + s, s + " ", "x" + s, s + ">"])
+            elif m == "tail":
+                # a well-formed name FOLLOWED by something: never the name of that dtype
+                s = s + rng.choice([", b: [double]", "x", "[pyarrow]", ">x", " nested<a: [int64]>", ", zz: [int64]>", ">>"])
             elif m == "no_bracket":
                 s = s.replace("[", "", 1) if rng.random() < 0.5 else s.replace("]", "", 1)
             elif m == "empty_type":
@@ -222,7 +225,7 @@ def generate(ctx):
                 for _ in range(rng.randint(1, 4)):
                     ty = rng.choice(list(gen.TYPES))
                     nm = rng.choice(["new1", "new2"] + [n for n, _ in inpc["schema"]])
-                    how = rng.choice(["with_flat_field", "with_list_field", "without_field", "frame_setitem", "frame_retype", "frame_retype", "nest_getitem", "query", "setitem_el", "query", "setitem_el", "query", "setitem_el"])
+                    how = rng.choice(["with_flat_field", "with_list_field", "without_field", "frame_setitem", "frame_retype", "frame_retype", "assign_all_rows", "assign_all_rows", "nest_getitem", "query", "setitem_el", "query", "setitem_el", "query", "setitem_el"])
                     cur = nf["n"]
                     names_now = list(cur.nest.fields)
                     if how == "with_flat_field":
@@ -242,6 +245,22 @@ def generate(ctx):
                         nf[f"n.{nm}"] = pa.array(ao.values_of_type(rng, ty, sum(lens)), type=gen.TYPES[ty])
                         cur = nf["n"]
                         assert str(cur.array.chunked_array.type.field(nm).type.value_type) == str(gen.TYPES[ty]), "the new element type was not stored"
+                    elif how == "assign_all_rows":
+                        # every row assigned at once from a nested array whose element types differ (castable ints into a double field):
+                        # the column keeps ITS types, and what it declares is what it stores
+                        dbl = [f.name for f in cur.array.chunked_array.type if str(f.type.value_type) == "double"]
+                        if dbl and len(cur) > 0:
+                            other_t = pa.struct([pa.field(f.name, pa.list_(pa.int64()) if f.name == dbl[0] else f.type) for f in cur.array.chunked_array.type])
+                            other_rows = [None if r is None else {k_: ([1] * len(v_) if k_ == dbl[0] else v_) for k_, v_ in r.items()}
+                                          for r in cur.array.chunked_array.to_pylist()]
+                            other = NEA(pa.array(other_rows, type=other_t))
+                            key_ = rng.choice(["slice", "mask"])
+                            if key_ == "slice":
+                                cur.array[:] = other
+                            else:
+                                cur.array[np.ones(len(cur), dtype=bool)] = other
+                            assert str(cur.array.chunked_array.type.field(dbl[0]).type.value_type) == "double", \
+                                "assigning every row from an array with other element types changed the column's element type"
                     elif how == "nest_getitem":
                         cur = cur.nest[[rng.choice(names_now)]]
                     elif how in ("query", "setitem_el"):
